@@ -190,6 +190,10 @@ func checkWinCert(in []byte, chunk int) error {
 	if !bytes.Equal(wb.Bytes(), in[:n]) {
 		return fmt.Errorf("WriteWinCertificate of the decoded value gives %d bytes, %d were consumed", wb.Len(), n)
 	}
+	signature.WriteWinCertificate(&wb, &got)
+	if !bytes.Equal(wb.Bytes(), append(append([]byte{}, in[:n]...), in[:n]...)) {
+		return fmt.Errorf("WriteWinCertificate of the same value a second time appends %d bytes, the first time %d", wb.Len()-n, n)
+	}
 	return nil
 }
 
@@ -257,6 +261,11 @@ func checkCase(c Case) error {
 	signature.WriteWinCertificateUEFIGUID(&wub, &wu)
 	if !bytes.Equal(wub.Bytes(), desc[16:]) {
 		return fmt.Errorf("WriteWinCertificateUEFIGUID of the decoded value gives %d bytes, %d were consumed", wub.Len(), len(desc)-16)
+	}
+	// encoding is repeatable: the same value written again (behind what is already in the buffer) gives the same bytes
+	signature.WriteWinCertificateUEFIGUID(&wub, &wu)
+	if !bytes.Equal(wub.Bytes(), append(append([]byte{}, desc[16:]...), desc[16:]...)) {
+		return fmt.Errorf("WriteWinCertificateUEFIGUID of the same value a second time appends %d bytes, the first time %d", wub.Len()-(len(desc)-16), len(desc)-16)
 	}
 	// 4. plain WIN_CERTIFICATE of any type, followed by payload
 	wc := append(authvar.EncodeWinCert(authvar.Revision2, c.WinType, c.CertData), c.Payload...)
